@@ -13,9 +13,9 @@ EXTENDS Integers, Sequences, FiniteSets, TLC
 
 PropTy == [ival |-> "int", jval |-> "int", uval |-> "uint", dval |-> "dbl", flag |-> "bool", flagB |-> "bool",
            text |-> "str", textB |-> "str", mode |-> "enum:Mode", opts |-> "enum:Opts", ptr |-> "ptr:TSource",
-           sub |-> "ptr:TSub", items |-> "list:str", konst |-> "int", quiet |-> "int", rdonly |-> "int",
+           sub |-> "ptr:TSub", items |-> "list:str", konst |-> "int", quiet |-> "int", rdonly |-> "int", fin |-> "int", finq |-> "int",
            xval |-> "int", cptr |-> "ptr:TSource"]
-ReadOnlyProps == {"konst", "rdonly", "cptr"}
+ReadOnlyProps == {"konst", "rdonly", "cptr", "fin", "finq"}
 ObjTy == [a |-> "ptr:TSource", b |-> "ptr:TSub"]
 ClassHasProp(c, p) == p \in DOMAIN PropTy /\ (p = "xval" => c = "TSub")
 EnumOfVariant == [ModeA |-> "enum:Mode", ModeB |-> "enum:Mode", ModeC |-> "enum:Mode",
@@ -113,6 +113,8 @@ CheckS(x, locs) ==
     [] x.k \in {"let", "const"} -> LET t == Concrete(TypeOf(x.e, locs)) IN
                                    R(t \notin {"ill", "void"}, (x.n :> [ty |-> t, const |-> x.k = "const"]) @@ locs, {})
     [] x.k = "asg" -> R(x.n \in DOMAIN locs /\ ~locs[x.n].const /\ Assignable(locs[x.n].ty, TypeOf(x.e, locs)), locs, {})
+    [] x.k = "asgsub" -> R(x.n \in DOMAIN locs /\ ~locs[x.n].const /\ locs[x.n].ty = "list:str" /\ TypeOf(x.i, locs) \in {"cint", "int", "uint"}
+                           /\ Assignable("str", TypeOf(x.e, locs)), locs, {})
     [] x.k = "wprop" -> LET o == TypeOf(x.o, locs) IN
                         R(IsPtr(o) /\ ClassHasProp(SubSeq(o, 5, Len(o)), x.p) /\ x.p \notin ReadOnlyProps
                           /\ Assignable(PropTy[x.p], TypeOf(x.e, locs)), locs, {})
